@@ -1,4 +1,4 @@
-(* Proofs/Result.v — C03: lemmas about the merge along `time` and the assembled result. *)
+(* Proofs/Result.v — C03: lemmas about the concatenation along `time`, the tables and the assembled result. *)
 From Coq Require Import ZArith List Bool String Lia Sorted.
 From PyxelV Require Import Model.Result.
 Import ListNotations.
@@ -50,32 +50,34 @@ Proof.
   intros [l s] Hy. pose proof (H _ Hy) as E. simpl in *. rewrite E. reflexivity.
 Qed.
 
-(* ------------------------------------------------------------------- insertion above all labels *)
+(* ------------------------------------------------------- concatenation: no slice lost, none invented *)
 
-Lemma insert_above : forall x d,
-  Forall (fun y => y < fst x) (map fst d) -> insert x d = Some (true, d ++ [x]).
+Lemma assemble_from_labels : forall xs d, map fst (assemble_from d xs) = map fst d ++ map fst xs.
 Proof.
-  induction d as [|y d IH]; simpl; intros H; [reflexivity|].
-  inversion H; subst.
-  destruct (fst x <? fst y) eqn:E1; [lia|].
-  destruct (fst x =? fst y) eqn:E2; [lia|].
-  rewrite IH by assumption. reflexivity.
+  induction xs as [|x xs IH]; simpl; intros d; [rewrite app_nil_r; reflexivity|].
+  rewrite IH. unfold concat_step. rewrite fix_all_labels, map_app. simpl. rewrite <- app_assoc. reflexivity.
+Qed.
+
+(* the labels of the result are the readout labels, in readout order, one slice per readout --
+   for EVERY list of labels (no distinctness or ordering needed) *)
+Theorem assemble_labels : forall xs,
+  map fst (assemble xs) = map fst xs /\ List.length (assemble xs) = List.length xs.
+Proof.
+  intros xs.
+  assert (H : map fst (assemble xs) = map fst xs).
+  { destruct xs as [|x xs]; simpl; [reflexivity|]. rewrite assemble_from_labels. reflexivity. }
+  split; [exact H|]. apply (f_equal (@List.length Z)) in H. rewrite !map_length in H. exact H.
 Qed.
 
 Definition stable_sl (all : list slice) : Prop :=
   forall x y, In x all -> In y all -> fix_image (s_image (snd x)) (snd y) = snd y.
 
-Lemma assemble_from_increasing : forall xs d,
-  StronglySorted Z.lt (map fst (d ++ xs)) ->
-  stable_sl (d ++ xs) ->
-  assemble_from d xs = Some (d ++ xs).
+Lemma assemble_from_stable : forall xs d,
+  stable_sl (d ++ xs) -> assemble_from d xs = d ++ xs.
 Proof.
-  induction xs as [|x xs IH]; simpl; intros d Hs Hst.
+  induction xs as [|x xs IH]; simpl; intros d Hst.
   - rewrite app_nil_r. reflexivity.
-  - unfold merge_step.
-    rewrite insert_above.
-    2:{ rewrite map_app in Hs. simpl in Hs. eapply ss_app_lt; eauto. }
-    rewrite fix_all_id.
+  - unfold concat_step. rewrite fix_all_id.
     2:{ intros y Hy. apply Hst.
         - apply in_or_app. right. left. reflexivity.
         - apply in_app_or in Hy. apply in_or_app. destruct Hy as [Hy|Hy]; [left; exact Hy|].
@@ -84,188 +86,10 @@ Proof.
     apply IH; assumption.
 Qed.
 
-Lemma assemble_increasing : forall xs,
-  StronglySorted Z.lt (map fst xs) -> stable_sl xs -> assemble xs = Some xs.
+Lemma assemble_stable : forall xs, stable_sl xs -> assemble xs = xs.
 Proof.
   destruct xs as [|x xs]; simpl; intros; [reflexivity|].
-  apply (assemble_from_increasing xs [x]); assumption.
-Qed.
-
-(* ------------------------------------------------------------------ insertion into a sorted list *)
-
-Definition sorted (d : dataset) : Prop := StronglySorted Z.lt (map fst d).
-
-Lemma insert_spec : forall x d f d',
-  sorted d -> insert x d = Some (f, d') ->
-  sorted d' /\
-  (forall l, In l (map fst d') <-> (l = fst x \/ In l (map fst d))) /\
-  (forall z, In z d' -> z = x \/ In z d) /\
-  (f = true -> ~ In (fst x) (map fst d) /\ List.length d' = S (List.length d)) /\
-  (f = false -> In (fst x) (map fst d) /\ d' = d).
-Proof.
-  unfold sorted. induction d as [|y d IH]; simpl; intros f d' Hs H.
-  - inversion H; subst. simpl.
-    split; [repeat constructor|].
-    split; [intros l; split; [intros [E|[]]; left; congruence|intros [E|[]]; left; congruence]|].
-    split; [intros z [E|[]]; left; congruence|].
-    split; [intros _; split; [intuition congruence|reflexivity]|discriminate].
-  - inversion Hs as [|? ? Hs' Hall]; subst.
-    destruct (fst x <? fst y) eqn:E1.
-    + inversion H; subst. simpl.
-      assert (Hgt : Forall (Z.lt (fst x)) (fst y :: map fst d)).
-      { constructor; [lia|]. rewrite Forall_forall in *. intros z Hz. specialize (Hall z Hz). lia. }
-      split; [constructor; assumption|].
-      split; [intros l; intuition congruence|].
-      split; [intros z [<-|Hz]; auto|].
-      split; [|discriminate].
-      intros _. split; [|reflexivity].
-      intros Hin. rewrite Forall_forall in Hgt. specialize (Hgt _ Hin). lia.
-    + destruct (fst x =? fst y) eqn:E2.
-      * destruct (snapshot_eqb (snd x) (snd y)); [|discriminate].
-        inversion H; subst. simpl.
-        split; [assumption|].
-        split; [intros l; split; [intuition congruence|]; intros [->|Hl]; [left; lia|exact Hl]|].
-        split; [intros z Hz; right; exact Hz|].
-        split; [discriminate|].
-        intros _. split; [left; lia|reflexivity].
-      * destruct (insert x d) as [[f0 d0]|] eqn:Ei; [|discriminate].
-        inversion H; subst.
-        destruct (IH f d0 Hs' eq_refl) as (S1 & S2 & S3 & S4 & S5).
-        simpl.
-        split.
-        { constructor; [assumption|]. rewrite Forall_forall in *. intros l Hl.
-          apply S2 in Hl. destruct Hl as [->|Hl]; [lia|]. apply Hall; assumption. }
-        split.
-        { intros l. rewrite S2. intuition congruence. }
-        split.
-        { intros z [<-|Hz]; [right; left; reflexivity|]. destruct (S3 _ Hz); auto. }
-        split.
-        { intros Hf. destruct (S4 Hf) as [N L]. split; [|lia].
-          intros [Hy|Hin]; [lia|contradiction]. }
-        { intros Hf. destruct (S5 Hf) as [I E]. split; [right; exact I|congruence]. }
-Qed.
-
-Lemma insert_none : forall x d, insert x d = None -> In (fst x) (map fst d).
-Proof.
-  induction d as [|y d IH]; simpl; intros H; [discriminate|].
-  destruct (fst x <? fst y) eqn:E1; [discriminate|].
-  destruct (fst x =? fst y) eqn:E2; [left; lia|].
-  destruct (insert x d) as [[f0 d0]|]; [discriminate|]. right. apply IH. reflexivity.
-Qed.
-
-Lemma merge_step_spec : forall d x d',
-  sorted d -> merge_step d x = Some d' ->
-  sorted d' /\
-  (forall l, In l (map fst d') <-> (l = fst x \/ In l (map fst d))) /\
-  ((~ In (fst x) (map fst d) /\ List.length d' = S (List.length d)) \/
-   (In (fst x) (map fst d) /\ d' = d)).
-Proof.
-  unfold merge_step. intros d x d' Hs H.
-  destruct (insert x d) as [[f d0]|] eqn:Ei; [|discriminate].
-  destruct (insert_spec _ _ _ _ Hs Ei) as (S1 & S2 & _ & S4 & S5).
-  destruct f; inversion H; subst.
-  - destruct (S4 eq_refl) as [N L].
-    split; [unfold sorted; rewrite fix_all_labels; exact S1|].
-    split; [intros l; rewrite fix_all_labels; apply S2|].
-    left. split; [exact N|]. rewrite fix_all_length. exact L.
-  - destruct (S5 eq_refl) as [I E]. subst d0.
-    split; [exact Hs|].
-    split; [intros l; split; [intuition congruence|]; intros [->|Hl]; assumption|].
-    right. split; [exact I|reflexivity].
-Qed.
-
-Lemma merge_step_none : forall d x, merge_step d x = None -> In (fst x) (map fst d).
-Proof.
-  unfold merge_step. intros d x H.
-  destruct (insert x d) as [[[|] d0]|] eqn:Ei; try discriminate.
-  apply insert_none. exact Ei.
-Qed.
-
-Lemma assemble_from_spec : forall xs d r,
-  sorted d -> assemble_from d xs = Some r ->
-  sorted r /\
-  (forall l, In l (map fst r) <-> (In l (map fst d) \/ In l (map fst xs))) /\
-  (List.length r <= List.length d + List.length xs)%nat /\
-  (List.length r = (List.length d + List.length xs)%nat <->
-   (NoDup (map fst xs) /\ forall l, In l (map fst xs) -> ~ In l (map fst d))).
-Proof.
-  induction xs as [|x xs IH]; simpl; intros d r Hs H.
-  - inversion H; subst. split; [exact Hs|]. split; [intros; intuition congruence|]. split; [lia|].
-    split; [intros _; split; [constructor|intros ? []]|intros _; lia].
-  - destruct (merge_step d x) as [d1|] eqn:Em; [|discriminate].
-    destruct (merge_step_spec _ _ _ Hs Em) as (S1 & S2 & S3).
-    destruct (IH d1 r S1 H) as (R1 & R2 & R3 & R4).
-    split; [exact R1|].
-    split.
-    { intros l. rewrite R2, S2. intuition congruence. }
-    destruct S3 as [[N L]|[I E]].
-    + split; [lia|].
-      split.
-      * intros Hl. assert (Hl' : List.length r = (List.length d1 + List.length xs)%nat) by lia.
-        apply R4 in Hl'. destruct Hl' as [ND DJ].
-        split.
-        { constructor; [|exact ND]. intros Hin. apply (DJ _ Hin). apply S2. left. reflexivity. }
-        { intros l [<-|Hin]; [exact N|]. intros Hd. apply (DJ _ Hin). apply S2. right. exact Hd. }
-      * intros [ND DJ]. inversion ND; subst.
-        assert (Hl' : List.length r = (List.length d1 + List.length xs)%nat).
-        { apply R4. split; [assumption|]. intros l Hin Hd. apply S2 in Hd. destruct Hd as [->|Hd].
-          - contradiction.
-          - apply (DJ l); [right; exact Hin|exact Hd]. }
-        lia.
-    + subst d1. split; [lia|].
-      split.
-      * intros Hl. lia.
-      * intros [ND DJ]. exfalso. apply (DJ (fst x)); [left; reflexivity|exact I].
-Qed.
-
-Lemma assemble_from_some : forall xs d,
-  sorted d -> NoDup (map fst xs) -> (forall l, In l (map fst xs) -> ~ In l (map fst d)) ->
-  exists r, assemble_from d xs = Some r.
-Proof.
-  induction xs as [|x xs IH]; simpl; intros d Hs ND DJ; [eauto|].
-  inversion ND; subst.
-  destruct (merge_step d x) as [d1|] eqn:Em.
-  - destruct (merge_step_spec _ _ _ Hs Em) as (S1 & S2 & _).
-    apply IH; try assumption.
-    intros l Hin Hd. apply S2 in Hd. destruct Hd as [->|Hd]; [contradiction|].
-    apply (DJ l); [right; exact Hin|exact Hd].
-  - exfalso. apply merge_step_none in Em. apply (DJ (fst x)); [left; reflexivity|exact Em].
-Qed.
-
-(* the merge along `time` loses no slice exactly when the labels are pairwise distinct *)
-Theorem merge_lossless_iff_distinct_labels : forall xs : list slice,
-  (exists r, assemble xs = Some r /\ List.length r = List.length xs) <-> NoDup (map fst xs).
-Proof.
-  destruct xs as [|x xs]; simpl.
-  - split; [intros _; constructor|intros _; exists []; auto].
-  - assert (Hs : sorted [x]) by (unfold sorted; simpl; repeat constructor).
-    split.
-    + intros [r [Ha Hl]].
-      destruct (assemble_from_spec xs [x] r Hs Ha) as (_ & _ & _ & R4).
-      simpl in R4. destruct (proj1 R4 Hl) as [ND DJ].
-      constructor; [|exact ND]. intros Hin. apply (DJ _ Hin). left. reflexivity.
-    + intros ND. inversion ND; subst.
-      assert (DJ : forall l, In l (map fst xs) -> ~ In l (map fst [x])).
-      { intros l Hin [<-|[]]. contradiction. }
-      destruct (assemble_from_some xs [x] Hs H2 DJ) as [r Hr].
-      exists r. split; [exact Hr|].
-      destruct (assemble_from_spec xs [x] r Hs Hr) as (_ & _ & _ & R4).
-      simpl in R4. apply R4. split; assumption.
-Qed.
-
-(* whenever the assembly succeeds, it never has MORE slices than readouts, its labels are exactly the
-   readout labels, and they are strictly increasing *)
-Theorem assemble_labels : forall xs r,
-  assemble xs = Some r ->
-  StronglySorted Z.lt (map fst r) /\ (forall l, In l (map fst r) <-> In l (map fst xs)) /\
-  (List.length r <= List.length xs)%nat.
-Proof.
-  destruct xs as [|x xs]; simpl; intros r H.
-  - inversion H; subst. simpl. split; [constructor|]. split; [intuition congruence|lia].
-  - assert (Hs : sorted [x]) by (unfold sorted; simpl; repeat constructor).
-    destruct (assemble_from_spec xs [x] r Hs H) as (R1 & R2 & R3 & _).
-    split; [exact R1|]. split; [|simpl in R3; lia].
-    intros l. rewrite R2. simpl. intuition congruence.
+  apply (assemble_from_stable xs [x]); assumption.
 Qed.
 
 (* ------------------------------------------------------------------------------- image dtype *)
@@ -281,6 +105,9 @@ Proof.
   unfold cast_to. intros. destruct (dtype_eqb (a_dt a) t) eqn:E; [apply dtype_eqb_eq; exact E|reflexivity].
 Qed.
 
+Lemma cast_to_same : forall a, cast_to (a_dt a) a = a.
+Proof. unfold cast_to. intros. rewrite dtype_eqb_refl. reflexivity. Qed.
+
 Lemma fix_image_dtype : forall t c s,
   a_dt c = t -> image_has_dtype t s -> image_has_dtype t (fix_image (Some c) s).
 Proof.
@@ -288,80 +115,43 @@ Proof.
   eexists. split; [apply s_image_set|]. rewrite Hc. apply cast_to_dtype.
 Qed.
 
-Lemma assemble_from_image_dtype : forall t xs d r,
-  sorted d ->
+Lemma assemble_from_image_dtype : forall t xs d,
   Forall (fun ls => image_has_dtype t (snd ls)) d ->
   Forall (fun ls => image_has_dtype t (snd ls)) xs ->
-  assemble_from d xs = Some r ->
-  Forall (fun ls => image_has_dtype t (snd ls)) r.
+  Forall (fun ls => image_has_dtype t (snd ls)) (assemble_from d xs).
 Proof.
-  induction xs as [|x xs IH]; simpl; intros d r Hs Hd Hx H.
-  - inversion H; subst. exact Hd.
-  - inversion Hx as [|? ? Hx1 Hx2]; subst.
-    destruct (merge_step d x) as [d1|] eqn:Em; [|discriminate].
-    destruct (merge_step_spec _ _ _ Hs Em) as (S1 & _ & _).
-    apply (IH d1 r S1); try assumption.
-    unfold merge_step in Em.
-    destruct (insert x d) as [[f d0]|] eqn:Ei; [|discriminate].
-    destruct (insert_spec _ _ _ _ Hs Ei) as (_ & _ & S3 & _ & _).
-    destruct f; inversion Em; subst; [|exact Hd].
-    destruct Hx1 as [c [Hc Hct]].
-    unfold fix_all. rewrite Forall_forall. intros z Hz.
-    apply in_map_iff in Hz. destruct Hz as [[l s] [E Hin]]. subst z. simpl.
-    rewrite Hc. apply fix_image_dtype; [exact Hct|].
-    destruct (S3 _ Hin) as [E|Hin'].
-    + subst x. simpl in *. exists c. auto.
-    + rewrite Forall_forall in Hd. apply (Hd _ Hin').
+  induction xs as [|x xs IH]; simpl; intros d Hd Hx; [exact Hd|].
+  inversion Hx as [|? ? Hx1 Hx2]; subst.
+  apply IH; [|exact Hx2].
+  destruct Hx1 as [c [Hc Hct]].
+  unfold concat_step, fix_all. rewrite Forall_forall. intros z Hz.
+  apply in_map_iff in Hz. destruct Hz as [[l s] [E Hin]]. subst z. simpl.
+  rewrite Hc. apply fix_image_dtype; [exact Hct|].
+  apply in_app_or in Hin. destruct Hin as [Hin|[E|[]]].
+  - rewrite Forall_forall in Hd. apply (Hd _ Hin).
+  - subst x. simpl in *. exists c. auto.
 Qed.
 
-Theorem assemble_image_dtype : forall t xs r,
+Theorem assemble_image_dtype : forall t xs,
   Forall (fun ls => image_has_dtype t (snd ls)) xs ->
-  assemble xs = Some r ->
-  Forall (fun ls => image_has_dtype t (snd ls)) r.
+  Forall (fun ls => image_has_dtype t (snd ls)) (assemble xs).
 Proof.
-  destruct xs as [|x xs]; simpl; intros r Hx H.
-  - inversion H; subst. constructor.
-  - inversion Hx; subst.
-    apply (assemble_from_image_dtype t xs [x] r); try assumption.
-    + unfold sorted; simpl; repeat constructor.
-    + constructor; [assumption|constructor].
+  destruct xs as [|x xs]; simpl; intros Hx; [constructor|].
+  inversion Hx; subst.
+  apply assemble_from_image_dtype; [constructor; [assumption|constructor]|assumption].
 Qed.
 
-(* ------------------------------------------------- the image round trip is exact below the bit budget *)
-
-Lemma round_bits_small : forall p v, v < 2 ^ p -> round_bits p v = v.
-Proof. unfold round_bits. intros. destruct (v <? 2 ^ p) eqn:E; [reflexivity|lia]. Qed.
-
-Lemma map_id_in : forall (f : Z -> Z) l, (forall v, In v l -> f v = v) -> map f l = l.
-Proof. intros. rewrite <- (map_id l) at 2. apply map_ext_in. assumption. Qed.
+(* ------------------------------------------------- one image dtype: the restoration changes nothing *)
 
 Lemma set_image_same : forall s a, s_image s = Some a -> set s Image (Some a) = s.
 Proof. destruct s; simpl; intros; subst; reflexivity. Qed.
 
-Lemma roundtrip_exact : forall t a,
-  is_unsigned t = true -> a_dt a = t ->
-  (forall v, In v (a_vals a) -> 0 <= v < 2 ^ exact_bits t) ->
-  cast_to t (promote a) = a.
-Proof.
-  intros t [dt shp vals] Hu Hd Hv. simpl in *. subst dt.
-  destruct t; try discriminate; unfold promote, cast_to; simpl.
-  - f_equal. rewrite map_map. apply map_id_in. intros v Hin. specialize (Hv v Hin). simpl in Hv.
-    rewrite round_bits_small by lia. apply Z.mod_small. lia.
-  - f_equal. rewrite map_map. apply map_id_in. intros v Hin. specialize (Hv v Hin). simpl in Hv.
-    rewrite round_bits_small by lia. apply Z.mod_small. lia.
-  - f_equal. rewrite map_map. apply map_id_in. intros v Hin. specialize (Hv v Hin). simpl in Hv.
-    rewrite round_bits_small by lia. apply Z.mod_small. lia.
-  - f_equal. rewrite map_map. apply map_id_in. intros v Hin. specialize (Hv v Hin). simpl in Hv.
-    rewrite round_bits_small by lia. apply Z.mod_small. lia.
-Qed.
-
 Theorem uniform_image_stable : forall snaps, image_uniform snaps -> image_stable snaps.
 Proof.
-  unfold image_uniform, image_stable. intros snaps [Hn|[t [Hu H]]] s s' Hs Hs'.
+  unfold image_uniform, image_stable. intros snaps [Hn|[t H]] s s' Hs Hs'.
   - unfold fix_image. rewrite (Hn s Hs). reflexivity.
-  - destruct (H s Hs) as [a [Ha [Hd Hv]]]. destruct (H s' Hs') as [c [Hc [Hcd _]]].
-    unfold fix_image. rewrite Ha, Hc, Hcd.
-    rewrite (roundtrip_exact t a Hu Hd Hv). apply set_image_same. exact Ha.
+  - destruct (H s Hs) as [a [Ha Hd]]. destruct (H s' Hs') as [c [Hc Hcd]].
+    unfold fix_image. rewrite Ha, Hc, Hcd, <- Hd, cast_to_same. apply set_image_same. exact Ha.
 Qed.
 
 (* ------------------------------------------------------------------------------- the exposure *)
@@ -393,13 +183,19 @@ Section Exposure.
   Context {Scene Data : Type}.
   Variable empty_scene : Scene.
   Variable scene_is_empty : Scene -> bool.
+  Variable tbl : tables.
 
   Notation det := (det Scene Data).
   Notation config := (config Scene Data).
   Notation tree := (tree Scene Data).
   Notation end_states := (end_states empty_scene).
-  Notation exposure := (exposure empty_scene scene_is_empty).
+  Notation exposure := (exposure empty_scene scene_is_empty tbl).
   Notation reset := (reset empty_scene).
+  Notation views := (views empty_scene tbl).
+  Notation trace := (trace empty_scene).
+  Notation debug_steps := (debug_steps empty_scene tbl).
+  Notation labels := (labels tbl).
+  Notation copies := (tb_copies tbl).
 
   Lemma end_states_length : forall (c : config) n i d, List.length (end_states c i n d) = n.
   Proof. induction n; simpl; intros; [reflexivity|]. rewrite IHn. reflexivity. Qed.
@@ -413,13 +209,80 @@ Section Exposure.
     unfold step_end. rewrite H1, H2, H3. f_equal. apply IHn; assumption.
   Qed.
 
-  Lemma debug_steps_ext : forall (c c' : config) n i d last,
+  Lemma trace_ext : forall (c c' : config) n i d,
     c_shape c = c_shape c' -> c_nondestr c = c_nondestr c' -> c_models c = c_models c' ->
-    debug_steps empty_scene c i n d last = debug_steps empty_scene c' i n d last.
+    trace c i n d = trace c' i n d.
   Proof.
-    induction n; simpl; intros i d last H1 H2 H3; [reflexivity|].
-    rewrite H1, H2, H3. f_equal. apply IHn; assumption.
+    induction n; simpl; intros i d H1 H2 H3; [reflexivity|].
+    rewrite H1, H2, H3. f_equal. f_equal. apply IHn; assumption.
   Qed.
+
+  Lemma debug_steps_ext : forall (c c' : config) n i d,
+    c_shape c = c_shape c' -> c_nondestr c = c_nondestr c' -> c_models c = c_models c' ->
+    debug_steps c i n d = debug_steps c' i n d.
+  Proof.
+    induction n; simpl; intros i d H1 H2 H3; [reflexivity|].
+    rewrite H1, H2, H3. rewrite (trace_ext c c') by assumption. f_equal. apply IHn; assumption.
+  Qed.
+
+  Lemma views_ext : forall (c c' : config) ends,
+    c_shape c = c_shape c' -> c_nondestr c = c_nondestr c' -> c_models c = c_models c' ->
+    views c ends = views c' ends.
+  Proof. intros c c' [|e0 rest] H1 H2 H3; simpl; [reflexivity|]. rewrite H1, H2, H3. reflexivity. Qed.
+
+  (* ---- a read-out that does not copy is harmless for the slices as long as the container gets a new
+     buffer at every reset: true of the charge array (Charge.empty: np.zeros_like) ---- *)
+  Definition slices_safe : Prop := forall k, copies k = false -> k = KCharge.
+
+  (* every variable of the step dataset is read out of the container of the same name *)
+  Definition exports_all : Prop := forall v, source_of (tb_exported tbl) v = Some v.
+
+  Lemma build_snapshot_get : forall s, build_snapshot (fun v => get s v) = s.
+  Proof. destruct s; reflexivity. Qed.
+
+  Lemma build_snapshot_ext : forall f g, (forall v, f v = g v) -> build_snapshot f = build_snapshot g.
+  Proof. intros f g H. unfold build_snapshot. rewrite !H. reflexivity. Qed.
+
+  Lemma export_id : exports_all -> forall s, export tbl s = s.
+  Proof.
+    intros H s. unfold export. transitivity (build_snapshot (fun v => get s v)); [|apply build_snapshot_get].
+    apply build_snapshot_ext. intros v. rewrite H. reflexivity.
+  Qed.
+
+  Lemma settle_export_id : exports_all -> forall (d : det) later s,
+    (forall b a, get s b = Some a -> settle_arr tbl d later b a = a) ->
+    settle_export tbl d later s = s.
+  Proof.
+    intros He d later s H. unfold settle_export.
+    transitivity (build_snapshot (fun v => get s v)); [|apply build_snapshot_get].
+    apply build_snapshot_ext. intros v. rewrite He.
+    destruct (get s v) as [a|] eqn:E; simpl; [|reflexivity]. f_equal. apply H. exact E.
+  Qed.
+
+  Lemma views_exact : forall (c : config) ends,
+    slices_safe -> exports_all -> views c ends = map view ends.
+  Proof.
+    intros c [|e0 rest] Hs He; simpl; [reflexivity|]. f_equal.
+    - apply settle_export_id; [exact He|]. intros b a Hg. unfold settle_arr.
+      destruct (copies (kind_of b a)) eqn:Ec; [reflexivity|].
+      apply Hs in Ec. destruct b; simpl in Ec; try discriminate.
+      + destruct (List.length (a_shape a) =? 3)%nat; discriminate.
+      + destruct rest as [|e1 rest]; simpl; [reflexivity|].
+        rewrite andb_false_r.
+        destruct (Nat.eqb (S (d_gen e0 Charge)) (d_gen e0 Charge)) eqn:E; [|reflexivity].
+        apply Nat.eqb_eq in E. lia.
+    - apply map_ext. intros d. apply export_id. exact He.
+  Qed.
+
+  Lemma views_length : forall (c : config) ends, List.length (views c ends) = List.length ends.
+  Proof. intros c [|e0 rest]; simpl; [reflexivity|]. rewrite map_length. reflexivity. Qed.
+
+  Lemma labels_length : forall (c : config), List.length (labels c) = List.length (c_times c).
+  Proof. intros c. unfold Result.labels. destruct (tb_label tbl); [apply map_length|reflexivity]. Qed.
+
+  Lemma labels_absolute : tb_label tbl = LAbsolute ->
+    forall c : config, labels c = map (Z.add (c_start c)) (c_times c).
+  Proof. intros H c. unfold Result.labels. rewrite H. reflexivity. Qed.
 
   Definition ends_of (c : config) (d_init : det) : list det :=
     end_states c 0 (List.length (c_times c)) (reset (c_shape c) false d_init).
@@ -427,21 +290,23 @@ Section Exposure.
   Lemma in_combine_snd : forall (A B : Type) (l : list A) (m : list B) x, In x (combine l m) -> In (snd x) m.
   Proof. intros A B l m [a b] H. simpl. eapply in_combine_r; eauto. Qed.
 
-  (* C03_slices *)
+  Lemma labels_views_length : forall (c : config) (d_init : det),
+    List.length (labels c) = List.length (map view (ends_of c d_init)).
+  Proof. intros. unfold ends_of. rewrite labels_length, map_length, end_states_length. reflexivity. Qed.
+
+  (* C03_slices: for EVERY schedule *)
   Theorem slices_faithful : forall (c : config) (d_init : det),
-    StronglySorted Z.lt (c_times c) ->
+    slices_safe -> exports_all ->
     image_stable (map view (ends_of c d_init)) ->
-    exists t, exposure c d_init = Some t /\
-      t_buckets t = combine (labels c) (map view (ends_of c d_init)) /\
-      List.length (t_buckets t) = List.length (c_times c).
+    t_buckets (exposure c d_init) = combine (labels c) (map view (ends_of c d_init)) /\
+    List.length (t_buckets (exposure c d_init)) = List.length (c_times c).
   Proof.
-    intros c d_init Hs Hst. unfold exposure. fold (ends_of c d_init).
-    assert (Hlen : List.length (labels c) = List.length (map view (ends_of c d_init))).
-    { unfold labels, ends_of. rewrite !map_length, end_states_length. reflexivity. }
-    rewrite assemble_increasing.
-    - eexists. split; [reflexivity|]. simpl. split; [reflexivity|].
-      etransitivity; [apply combine_length|]. rewrite <- Hlen. unfold labels. rewrite map_length. lia.
-    - rewrite map_fst_combine by exact Hlen. apply ss_map_add. exact Hs.
+    intros c d_init Hsafe Hexp Hst. unfold Result.exposure. cbn [t_buckets]. fold (ends_of c d_init).
+    rewrite (views_exact c _ Hsafe Hexp).
+    pose proof (labels_views_length c d_init) as Hlen.
+    rewrite assemble_stable.
+    - split; [reflexivity|].
+      etransitivity; [apply combine_length|]. rewrite <- Hlen, labels_length. lia.
     - intros x y Hx Hy. apply Hst; eapply in_combine_snd; eauto.
   Qed.
 
@@ -452,29 +317,29 @@ Section Exposure.
     f_equal. apply IHls.
   Qed.
 
-  (* per bucket: exactly one slice per readout, in order, labelled start + t_i, holding what the
-     detector held at the end of step i *)
-  Corollary slices_per_bucket : forall (c : config) (d_init : det) b,
-    StronglySorted Z.lt (c_times c) ->
-    image_stable (map view (ends_of c d_init)) ->
-    exists t, exposure c d_init = Some t /\
-      bucket_slices (t_buckets t) b =
-        combine (map (Z.add (c_start c)) (c_times c))
-                (map (fun d => get (view d) b) (ends_of c d_init)).
+  (* whatever the images are: one slice per readout, labelled as the table says, in readout order *)
+  Theorem labels_faithful : forall (c : config) (d_init : det),
+    map fst (t_buckets (exposure c d_init)) = labels c /\
+    List.length (t_buckets (exposure c d_init)) = List.length (c_times c).
   Proof.
-    intros c d_init b Hs Hst. destruct (slices_faithful c d_init Hs Hst) as [t [He [Hb _]]].
-    exists t. split; [exact He|]. rewrite Hb, bucket_slices_combine, map_map. reflexivity.
+    intros c d_init. unfold Result.exposure. cbn [t_buckets]. fold (ends_of c d_init).
+    destruct (assemble_labels (combine (labels c) (views c (ends_of c d_init)))) as [H1 H2].
+    assert (Hlen : List.length (labels c) = List.length (views c (ends_of c d_init))).
+    { rewrite views_length, labels_length. unfold ends_of. rewrite end_states_length. reflexivity. }
+    split.
+    - rewrite H1. apply map_fst_combine. exact Hlen.
+    - rewrite H2. etransitivity; [apply combine_length|]. rewrite <- Hlen, labels_length. lia.
   Qed.
 
   (* C03_image_dtype: no hypothesis on the values *)
-  Theorem image_dtype_kept : forall (c : config) (d_init : det) t_ tr,
+  Theorem image_dtype_kept : forall (c : config) (d_init : det) t_,
+    slices_safe -> exports_all ->
     Forall (fun d => image_has_dtype t_ (d_snap d)) (ends_of c d_init) ->
-    exposure c d_init = Some tr ->
-    Forall (fun ls => image_has_dtype t_ (snd ls)) (t_buckets tr).
+    Forall (fun ls => image_has_dtype t_ (snd ls)) (t_buckets (exposure c d_init)).
   Proof.
-    intros c d_init t_ tr Hall He. unfold exposure in He. fold (ends_of c d_init) in He.
-    destruct (assemble _) as [ds|] eqn:Ea; [|discriminate]. inversion He; subst. simpl.
-    eapply assemble_image_dtype; [|exact Ea].
+    intros c d_init t_ Hsafe Hexp Hall. unfold Result.exposure. cbn [t_buckets]. fold (ends_of c d_init).
+    rewrite (views_exact c _ Hsafe Hexp).
+    apply assemble_image_dtype.
     rewrite Forall_forall in *. intros x Hx. apply in_combine_snd in Hx.
     apply in_map_iff in Hx. destruct Hx as [d [<- Hd]].
     unfold image_has_dtype, view. rewrite extract_image. apply Hall. exact Hd.
@@ -482,36 +347,30 @@ Section Exposure.
 
   (* C03_layouts_agree *)
   Theorem layouts_agree : forall (c : config) (d_init : det),
-    match exposure (with_layout c Flat) d_init, exposure (with_layout c Hier) d_init with
-    | Some a, Some b =>
-        t_buckets a = t_buckets b /\ t_inter a = t_inter b /\ t_scene a = t_scene b /\
-        t_data a = t_data b /\ t_bucket_path b = "/bucket"%string /\
-        t_bucket_path a = (if scene_is_empty (t_scene a) then "/" else "/bucket")%string
-    | None, None => True
-    | _, _ => False
-    end.
+    let a := exposure (with_layout c Flat) d_init in
+    let b := exposure (with_layout c Hier) d_init in
+    t_buckets a = t_buckets b /\ t_inter a = t_inter b /\ t_scene a = t_scene b /\
+    t_data a = t_data b /\ t_bucket_path b = "/bucket"%string /\
+    t_bucket_path a = (if scene_is_empty (t_scene a) then "/" else "/bucket")%string.
   Proof.
-    intros c d_init. unfold exposure. simpl.
+    intros c d_init. unfold Result.exposure. simpl.
     rewrite (end_states_ext (with_layout c Flat) c) by reflexivity.
     rewrite (end_states_ext (with_layout c Hier) c) by reflexivity.
-    unfold labels. simpl.
-    destruct (assemble _) as [ds|]; [|exact I]. simpl.
+    rewrite (views_ext (with_layout c Flat) c) by reflexivity.
+    rewrite (views_ext (with_layout c Hier) c) by reflexivity.
     rewrite (debug_steps_ext (with_layout c Flat) c) by reflexivity.
     rewrite (debug_steps_ext (with_layout c Hier) c) by reflexivity.
+    unfold Result.labels. simpl.
     repeat split.
     - unfold effective_layout. destruct (scene_is_empty _); reflexivity.
     - unfold effective_layout. destruct (scene_is_empty _); reflexivity.
   Qed.
 
   (* C03_scene_data_passthrough *)
-  Theorem scene_data_passthrough : forall (c : config) (d_init : det) tr,
-    exposure c d_init = Some tr ->
+  Theorem scene_data_passthrough : forall (c : config) (d_init : det),
     let final := last (ends_of c d_init) (reset (c_shape c) false d_init) in
-    t_scene tr = d_scene final /\ t_data tr = d_data final.
-  Proof.
-    intros c d_init tr He. unfold exposure in He. fold (ends_of c d_init) in He.
-    destruct (assemble _); [|discriminate]. inversion He; subst. simpl. split; reflexivity.
-  Qed.
+    t_scene (exposure c d_init) = d_scene final /\ t_data (exposure c d_init) = d_data final.
+  Proof. intros c d_init. split; reflexivity. Qed.
 
   (* data written by a model is not reset between steps (Detector.empty leaves it alone) and the scene
      is: the reset keeps d_data and replaces d_scene *)
@@ -524,14 +383,14 @@ Section Exposure.
   Proof. destruct l; reflexivity. Qed.
 
   Theorem debug_conservative : forall (c : config) (d_init : det),
-    exposure (with_debug c false) d_init = option_map strip_debug (exposure (with_debug c true) d_init).
+    exposure (with_debug c false) d_init = strip_debug (exposure (with_debug c true) d_init).
   Proof.
-    intros c d_init. unfold exposure. simpl.
+    intros c d_init. unfold Result.exposure, strip_debug. simpl.
     rewrite (end_states_ext (with_debug c false) c) by reflexivity.
     rewrite (end_states_ext (with_debug c true) c) by reflexivity.
-    unfold labels. simpl.
-    destruct (assemble _) as [ds|]; [|reflexivity]. simpl.
-    unfold strip_debug. simpl. rewrite children_strip. reflexivity.
+    rewrite (views_ext (with_debug c false) c) by reflexivity.
+    rewrite (views_ext (with_debug c true) c) by reflexivity.
+    unfold Result.labels. simpl. rewrite children_strip. reflexivity.
   Qed.
 
   (* the detector states do not depend on the debug flag at all *)
@@ -539,42 +398,88 @@ Section Exposure.
     ends_of (with_debug c b) d_init = ends_of c d_init.
   Proof. intros. unfold ends_of. simpl. apply end_states_ext; reflexivity. Qed.
 
-  (* C03_debug_conservative, part 2: within a step, the node of every model but the first holds exactly
-     the visible buckets whose values differ from what the detector held just before that model *)
+  (* ---- the debug nodes ---- *)
   Lemma run_models_app : forall i ms1 ms2 (d : det),
     run_models i (ms1 ++ ms2) d = run_models i ms2 (run_models i ms1 d).
   Proof. intros. unfold run_models. apply fold_left_app. Qed.
 
-  Theorem debug_models_nth : forall ms1 m ms2 i (d : det) last,
-    nth_error (fst (debug_models i (ms1 ++ m :: ms2) d last)) (List.length ms1) =
-    Some {| n_step := i; n_group := m_group m; n_name := m_name m;
-            n_vars := diff (match ms1 with
-                            | [] => last
-                            | _ => Some (visible (view (run_models i ms1 d)))
-                            end)
-                           (visible (view (m_fn m i (run_models i ms1 d)))) |}.
+  (* the debug capture reads the five containers under their own names and leaves out an all-zero charge *)
+  Definition visible_std : Prop := forall s, visible_t tbl s = visible s.
+
+  (* as captured (before the end of the run): every model's node is what the ideal record says *)
+  Lemma debug_models_ideal : visible_std -> forall ms i (d : det), debug_models tbl i ms d = ideal_models i ms d.
   Proof.
-    induction ms1 as [|m0 ms1 IH]; intros m ms2 i d last.
-    - reflexivity.
-    - simpl. rewrite IH. destruct ms1; reflexivity.
+    intros Hv. induction ms as [|m ms IH]; intros i d; [reflexivity|]. simpl. rewrite IH, !Hv. reflexivity.
   Qed.
 
-  Corollary debug_node_is_changed_buckets : forall m0 ms1 m ms2 i (d : det) last,
-    let before := run_models i (m0 :: ms1) d in
-    nth_error (fst (debug_models i ((m0 :: ms1) ++ m :: ms2) d last)) (List.length (m0 :: ms1)) =
-    Some {| n_step := i; n_group := m_group m; n_name := m_name m;
-            n_vars := changed_by (view before) (view (m_fn m i before)) |}.
-  Proof. intros. rewrite debug_models_nth. reflexivity. Qed.
+  Lemma debug_models_length : forall ms i (d : det),
+    List.length (debug_models tbl i ms d) = List.length (model_states i ms d).
+  Proof. induction ms as [|m ms IH]; intros i d; [reflexivity|]. simpl. rewrite IH. reflexivity. Qed.
 
-  (* the first model of a step: exactly what the ideal record says, PROVIDED the previous capture is
-     what the detector shows after the reset *)
-  Lemma debug_models_ideal : forall ms i (d : det),
-    fst (debug_models i ms d (Some (visible (view d)))) = ideal_models i ms d.
+  Definition every_readout_copies : Prop := forall k, copies k = true.
+
+  Lemma settle_id : every_readout_copies -> forall (d : det) later ba, settle tbl d later ba = ba.
   Proof.
-    induction ms as [|m ms IH]; intros i d; [reflexivity|].
-    simpl. rewrite IH. reflexivity.
+    intros H d later [b a]. unfold settle, settle_arr. simpl.
+    destruct (source_of (tb_visible tbl) b); [rewrite H|]; reflexivity.
+  Qed.
+
+  Lemma settle_nodes_id : every_readout_copies -> forall ns (sts later : list det),
+    List.length ns = List.length sts -> settle_nodes tbl ns sts later = ns.
+  Proof.
+    intros H. induction ns as [|n ns IH]; intros [|d sts] later Hl; simpl in *; try reflexivity; try discriminate.
+    rewrite IH by lia. destruct n as [st g nm vs]. simpl. f_equal. f_equal.
+    rewrite <- (map_id vs) at 2. apply map_ext. intros ba. apply settle_id. exact H.
+  Qed.
+
+  (* C03_debug_nodes: when every read-out copies, the nodes of the result are exactly the ideal record *)
+  Theorem debug_steps_ideal : every_readout_copies -> visible_std -> forall (c : config) n i (d : det),
+    debug_steps c i n d = ideal_steps empty_scene c i n d.
+  Proof.
+    intros H Hv c. induction n as [|n IH]; intros i d; [reflexivity|].
+    simpl. rewrite settle_nodes_id by (exact H || apply debug_models_length).
+    rewrite debug_models_ideal by exact Hv. rewrite IH. reflexivity.
   Qed.
 End Exposure.
+
+Lemma all_copy_every : forall copies, all_copy copies = true -> forall k, copies k = true.
+Proof.
+  unfold all_copy. intros copies H k. rewrite forallb_forall in H. apply H.
+  destruct k; simpl; tauto.
+Qed.
+
+Lemma bucket_eqb_eq : forall a b, bucket_eqb a b = true -> a = b.
+Proof. destruct a, b; simpl; intros; try reflexivity; discriminate. Qed.
+
+Lemma pairs_eqb_eq : forall a b, pairs_eqb a b = true -> a = b.
+Proof.
+  induction a as [|[x y] a IH]; destruct b as [|[x' y'] b]; simpl; intros H; try reflexivity; try discriminate.
+  apply andb_prop in H. destruct H as [H H3]. apply andb_prop in H. destruct H as [H1 H2].
+  apply bucket_eqb_eq in H1. apply bucket_eqb_eq in H2. subst. f_equal. apply IH. exact H3.
+Qed.
+
+(* what `tables_ok` gives, as propositions *)
+Theorem tables_ok_props : forall tbl, tables_ok tbl = true ->
+  every_readout_copies tbl /\ slices_safe tbl /\ tb_label tbl = LAbsolute /\ exports_all tbl /\ visible_std tbl.
+Proof.
+  unfold tables_ok. intros tbl H.
+  apply andb_prop in H. destruct H as [H Hv]. apply andb_prop in H. destruct H as [H He].
+  apply andb_prop in H. destruct H as [Hc Hl].
+  assert (C : every_readout_copies tbl) by (intros k; apply all_copy_every; exact Hc).
+  split; [exact C|]. split; [intros k Hk; rewrite C in Hk; discriminate|].
+  split; [unfold label_abs_b in Hl; destruct (tb_label tbl); [reflexivity|discriminate]|].
+  split.
+  - unfold exports_all_b in He. rewrite forallb_forall in He. intros v.
+    assert (Hin : In v all_buckets) by (destruct v; simpl; tauto).
+    specialize (He v Hin). destruct (source_of (tb_exported tbl) v) as [src|]; [|discriminate].
+    apply bucket_eqb_eq in He. subst. reflexivity.
+  - unfold visible_std_b in Hv. apply andb_prop in Hv. destruct Hv as [Hp Hz].
+    apply pairs_eqb_eq in Hp. rewrite forallb_forall in Hz.
+    assert (Z : forall b, tb_skip_zero tbl b = bucket_eqb b Charge).
+    { intros b. apply eqb_prop. apply Hz. destruct b; simpl; tauto. }
+    intros s. unfold visible_t, visible. rewrite Hp. unfold id_pairs, all_buckets. simpl.
+    rewrite !Z. reflexivity.
+Qed.
 
 (* ------------------------------------------------- what `changed_by` means, bucket by bucket *)
 
